@@ -14,17 +14,26 @@ Qed.
 
 From EG Require Import Proofs.Textbox.
 
+(* the index of a built-in mapping is small: index_ok holds for every string *)
+Lemma builtin_index_ok b atlas text : In b fonts -> index_ok (MFont (bf_font b) (builtin_index b) atlas) text.
+Proof.
+  intros H c _. cbn [mf_geom mf_index]. apply builtin_glyph_index_ok. exact H.
+Qed.
+
 (* C02 text clause for every built-in font: the record is well formed (vm_compute over the regenerated
    table), spacing is 0, so only the coordinate range remains as hypothesis *)
-Theorem builtin_text_drawn_in_bbox b idx atlas s ts pos text q :
+Definition lines_in_range (f : font) (s : cstyle) (ts : tstyle) (pos : point) (text : list Z) : Prop :=
+  forall line p, In (line, p) (text_lines f s ts pos text) -> draw_ok f p (length line).
+
+Theorem builtin_text_drawn_in_bbox b atlas s ts pos text q :
   In b fonts ->
-  let F := MFont (bf_font b) idx atlas in
-  text_in_range (bf_font b) s ts pos text ->
+  let F := MFont (bf_font b) (builtin_index b) atlas in
+  lines_in_range (bf_font b) s ts pos text ->
   render (fst (text_draw F s ts pos text)) q <> None ->
   contains (text_bbox (bf_font b) s ts pos text) q = true.
 Proof.
   intros H F Hr Hq. destruct (builtin_font_wf b H) as [Hw Hsp].
   destruct (font_wf_deco_inside _ Hw) as [Hf Hdi].
   apply (text_drawn_in_bbox F s ts pos text q); auto.
-  intros line p Hin. split; [apply Hr; assumption|left; exact Hsp].
+  intros line p Hin. split; [apply Hr; assumption|]. split; [apply builtin_index_ok; assumption|left; exact Hsp].
 Qed.
